@@ -123,6 +123,8 @@ def plan(tier, seed):
             variants += [2, 3]
         if prim in R.NORMAL_LAW:
             variants += [4, 5, 6]
+        if prim in ("flip_enum", "flip_mvd"):
+            variants += [7, 8]
         for var in variants:
             spec = R.unit_program(prim, var)
             fam = UNIT_FAMILY[prim]
